@@ -59,14 +59,14 @@ Proof.
 Qed.
 
 (* every answer of a history obeys the block law for the reads held at that moment *)
-Lemma history_blocks caller ref b pre st mx post recs :
-  nth_error (run_ops (answer caller ref b) (pre ++ Consensus mx :: post) st) (n_requests pre) = Some (Some recs) ->
+Lemma history_blocks caller qcaller ref b pre st mx post recs :
+  nth_error (run_ops (answer caller qcaller ref b) (pre ++ Consensus mx :: post) st) (n_requests pre) = Some (Some recs) ->
   flat_map rec_positions recs = covered (reads_of (st ++ flat_map added pre)) /\
   Forall (fun r => okM mx (c_cigar r)) recs /\
   forall r, In r recs -> c_TF r = Z.of_nat (length (st ++ flat_map added pre)) + 0.
 Proof.
   rewrite run_ops_stateless, held_added. intros H. injection H as H. unfold answer in H.
-  destruct (blocks_exact _ _ _ _ _ _ H) as (H1 & _ & _ & H4 & _).
+  destruct (blocks_exact _ _ _ _ _ _ _ H) as (H1 & _ & _ & H4 & _).
   split; [exact H1|]. split; [exact H4|].
-  intros r Hr. destruct (record_tags _ _ _ _ _ _ r H Hr) as (_ & _ & _ & HTF & _). exact HTF.
+  intros r Hr. destruct (record_tags _ _ _ _ _ _ _ r H Hr) as (_ & _ & _ & HTF & _). exact HTF.
 Qed.
